@@ -37,6 +37,7 @@ func C04(c *core.Ctx) {
 	schemaObjectRule(c, "C04-R4")
 	c04Stale(c)
 	c04InputsKept(c)
+	c04InputsRoundedInPlace(c)
 	c04ScenarioNotes(c)
 	c04ReadOnly(c)
 	_ = p
